@@ -226,6 +226,24 @@ def coqchk(pid):
     return {"ok": ok, "rc": rc, "axioms": axioms, "unsafe": other, "tail": out[-1500:]}
 
 
+def new_panic_sites():
+    """C08, advisory: panic-capable sites of the source that are not in the audited list (Run/Inventory.v)."""
+    rc, out = make(["theories/Run/Inventory.vo"])
+    if rc != 0:
+        return None, out[-1500:]
+    os.makedirs(os.path.join(OUT, "C08"), exist_ok=True)
+    path = os.path.join(OUT, "C08", "inventory_eval.v")
+    with open(path, "w", encoding="utf-8") as fh:
+        fh.write("From Verif Require Import Run.Inventory.\nFrom Coq Require Import String List.\nImport ListNotations.\n"
+                 "Open Scope string_scope.\nSet Printing Depth 100000.\nSet Printing Width 1000000.\n"
+                 "Eval vm_compute in new_panic_sites.\n")
+    rc, out = sh("coqc -noglob -Q %s Verif %s" % (os.path.join(COQ, "theories"), path), timeout=600)
+    if rc != 0:
+        return None, out[-1500:]
+    sites = re.findall(r'\("([^"]*)",\s*"((?:[^"]|"")*)"\)', out)
+    return [(m, st.replace('""', '"')) for m, st in sites], ""
+
+
 # ----------------------------------------------------------------------------------------------
 # correspondence
 
@@ -458,6 +476,24 @@ def main():
             for fam in spec["families"]:
                 cases += gen_cases(fam, tier, seed, os.path.join(work, fam + ".cases"))
         flags = evaluate(cases, os.path.join(work, "eval")) if cases else []
+        advisory = {}
+        if pid == "C08" and not replay:
+            sites, err = new_panic_sites()
+            advisory["new_panic_sites"] = sites if sites is not None else "could not evaluate: " + err
+            if sites:
+                # widen the search for a panicking input; no alarm unless one is found
+                notes.append("panic-site inventory: %d site(s) not in the audited list; search widened" % len(sites))
+                for stier, sseed in (("thorough", seed), ("search", seed + 1)):
+                    if stier == tier:
+                        continue
+                    extra = []
+                    for fam in spec["families"]:
+                        extra += gen_cases(fam, stier, sseed, os.path.join(work, fam + ".inv.cases"))
+                    ef = evaluate(extra, os.path.join(work, "inv"))
+                    cases += extra
+                    flags += ef
+                    if any(f & 2 for f in ef):
+                        break
 
         def classify(cases, flags):
             viol, kn, mism = [], [], []
@@ -526,6 +562,8 @@ def main():
                 "correspondence_mismatches": len(mism),
                 "known_finding_cases": len(kn),
                 "search_cases": searched,
+                "advisory": advisory,
+                "notes": notes,
                 "exhaustive": False,
             },
             "assumptions": spec["assumptions"],
